@@ -19,7 +19,7 @@ _built = {}
 _build_lock = __import__('threading').Lock()
 
 
-OPTIONAL_VARIANTS = ('strict-c99', 'short-enums', 'ilp32')
+OPTIONAL_VARIANTS = ('strict-c99', 'short-enums', 'ilp32', 'msan', 'ndebug', 'unsigned-char', 'no-byteorder-macros')
 
 
 def build_fieldmon(work, variant='asan'):
@@ -49,6 +49,18 @@ def _build_fieldmon(work, variant='asan'):
         return vlib.compile_many(work, 'fieldmon_strict_c99', src, ['-O2', '-g'], std='-std=c99')
     if variant == 'short-enums':         # ABI flag that is the default of bare-metal ARM toolchains
         return vlib.compile_many(work, 'fieldmon_short_enums', src, ['-O2', '-g', '-fshort-enums'])
+    if variant == 'ndebug':              # what CMAKE_BUILD_TYPE=Release/RelWithDebInfo/MinSizeRel add: assert() compiled out
+        return vlib.compile_many(work, 'fieldmon_ndebug', src, ['-O2', '-g', '-DNDEBUG'])
+    if variant == 'no-byteorder-macros': # a little-endian compiler that predefines none of __BYTE_ORDER__ / __ORDER_*_ENDIAN__ (MSVC, IAR, older gcc)
+        return vlib.compile_many(work, 'fieldmon_no_byteorder_macros', src, ['-O2', '-g', '-U__BYTE_ORDER__', '-U__ORDER_LITTLE_ENDIAN__',
+                                                                             '-U__ORDER_BIG_ENDIAN__', '-U__ORDER_PDP_ENDIAN__'])
+    if variant == 'unsigned-char':       # plain char is unsigned on ARM/AArch64/PowerPC/RISC-V Linux targets
+        return vlib.compile_many(work, 'fieldmon_unsigned_char', src, ['-O2', '-g', '-funsigned-char'])
+    if variant == 'msan':                # clang MemorySanitizer: results that depend on uninitialised memory
+        b = vlib.compile_msan(work, 'fieldmon_msan', src)
+        if b is None:
+            raise vlib.HarnessError('MemorySanitizer build failed')
+        return b
     cc, opt = variant.split('-')
     return vlib.compile_many(work, 'fieldmon_%s_%s' % (cc, opt), src, ['-' + opt, '-g'], cc=cc)
 
@@ -62,11 +74,23 @@ def run_modes(obs, binary, jobs, seed, tag=None):
     vlib.run_parallel(one, jobs)
 
 
+CONFIG_VARIANTS = ('strict-c99', 'short-enums', 'ilp32', 'ndebug', 'unsigned-char', 'no-byteorder-macros', 'msan')
+
+
+def config_variants(obs, work, jobs, seed, variants=CONFIG_VARIANTS):
+    """The same monitor modes with the library built in other configurations a user may choose (language mode, ABI flags,
+    32-bit target, NDEBUG) and under clang MemorySanitizer.  A configuration that cannot be built here is skipped with a note."""
+    bins = vlib.run_parallel(lambda v: (v, build_fieldmon(work, v)), variants, workers=len(variants))
+    for v, b in bins:
+        vlib.run_variant(obs, b, [dict(j, VP_SAMPLES=0) for j in jobs], seed, v)
+    obs.notes.extend('skipped build ' + x for x in SKIPPED)
+
+
 def filt(obs, prefixes):
     """Keep only violation keys that belong to this property (by key prefix) or sanitizer/signal keys."""
     keep = {}
     for k, v in obs.viol.items():
-        if any(k.startswith(p) for p in prefixes) or k.split(':')[0] in ('AddressSan', 'UBSan', 'UndefinedBehaviorSan', 'LeakSan', 'ThreadSan', 'signal'):
+        if any(k.startswith(p) for p in prefixes) or k.split(':')[0] in ('argeval', 'hang', 'AddressSan', 'UBSan', 'UndefinedBehaviorSan', 'LeakSan', 'ThreadSan', 'MemorySan', 'signal'):
             keep[k] = v
     obs.viol = keep
 
@@ -75,7 +99,7 @@ ASSUME_COMMON = [
     'spec/wire.spec transcribes IEEE 1722-2016 / acf-vss.md correctly (hand-written, positions derived by summing widths)',
     'reference bit-field model (mon/vpcore.c bf_get/bf_set) is correct',
     'gcc 12 AddressSanitizer/UBSan runtime; arena write monitor sees every byte of an 8 KiB region around the PDU',
-    'additional builds of the same sources: strict -std=c99, -fshort-enums, and a freestanding 32-bit (ILP32) i386 executable with its own runtime layer (mon/platform_ilp32.c)',
+    'additional builds of the same sources: strict -std=c99, -fshort-enums, -DNDEBUG, -funsigned-char, clang MemorySanitizer (-O0, origin tracking), and a freestanding 32-bit (ILP32) i386 executable with its own runtime layer (mon/platform_ilp32.c)',
     'buffer contents and 64-bit values are sampled (PRNG seeded by VERIF_SEED); fields, paths, header bits and value classes are enumerated',
 ]
 
@@ -99,16 +123,13 @@ def c01(tier, seed):
         named = int(obs.stats.get('nontrivial', 0)) // len(PLACES)
         run_modes(obs, b, [dict(VP_MODE='raw', VP_FORMATS='all', VP_REPS=reps(tier, 128, 4096))], seed)
         raw = int(obs.stats.get('nontrivial', 0)) - named * len(PLACES)
-        # the same corpus with the library built in other language/ABI configurations a user may choose
-        # the same corpus with the library built in other language/ABI configurations a user may choose
-        for v in ('strict-c99', 'short-enums', 'ilp32'):
-            vlib.run_variant(obs, build_fieldmon(work, v), [dict(VP_MODE='read', VP_FORMATS='all', VP_REPS=reps(tier, 100, 5000), VP_SAMPLES=0),
-                                                            dict(VP_MODE='raw', VP_FORMATS='all', VP_REPS=64, VP_SAMPLES=0)], seed, v)
+        config_variants(obs, work, [dict(VP_MODE='read', VP_FORMATS='all', VP_REPS=reps(tier, 100, 5000)), dict(VP_MODE='read', VP_FORMATS='all', VP_REPS=50, VP_PLACE=1),
+                                    dict(VP_MODE='raw', VP_FORMATS='all', VP_REPS=64)], seed)
         filt(obs, ['read:', 'raw:RAW:get'])
         cov = dict(distinct_nontrivial=named + raw, named_field_paths=named, raw_descriptor_shapes=raw, placements=list(PLACES),
                    rule='(at PDU byte offsets 0, 4, 1 and 2 from a 16-byte boundary) every spec field x {generic, dedicated} path x {zero, ones, checkerboards, field-saturated, field-cleared, '
                         'walking-1 and walking-0 over every header bit, every value of fields up to 12 bits wide, %d random buffers}; raw reader over start quadlet '
-                        '{0..7,11,30,61} x bit offset 0..31 x width 0..64.  A (field,path) or descriptor shape counts as '
+                        '{0..7,11,30,61,63,64,127,128,200,253} x bit offset 0..31 x width 0..64.  A (field,path) or descriptor shape counts as '
                         'non-trivial when the observed results were not all equal / a write changed bytes.' % R,
                    exhaustive=False, formats=len(format_ids()))
         return vlib.finish('C01', 'exploration', tier, seed, obs, cov, ASSUME_COMMON, t0, min_evals=100000)
@@ -128,10 +149,8 @@ def c02(tier, seed):
         named = int(obs.stats.get('nontrivial', 0)) // len(PLACES)
         run_modes(obs, b, [dict(VP_MODE='raw', VP_FORMATS='all', VP_REPS=reps(tier, 128, 4096))], seed)
         raw = int(obs.stats.get('nontrivial', 0)) - named * len(PLACES)
-        # the same corpus with the library built in other language/ABI configurations a user may choose
-        for v in ('strict-c99', 'short-enums', 'ilp32'):
-            vlib.run_variant(obs, build_fieldmon(work, v), [dict(VP_MODE='write', VP_FORMATS='all', VP_REPS=reps(tier, 100, 5000), VP_SAMPLES=0),
-                                                            dict(VP_MODE='raw', VP_FORMATS='all', VP_REPS=64, VP_SAMPLES=0)], seed, v)
+        config_variants(obs, work, [dict(VP_MODE='write', VP_FORMATS='all', VP_REPS=reps(tier, 100, 5000)), dict(VP_MODE='write', VP_FORMATS='all', VP_REPS=50, VP_PLACE=1),
+                                    dict(VP_MODE='raw', VP_FORMATS='all', VP_REPS=64)], seed)
         filt(obs, ['write:', 'raw:RAW:set'])
         cov = dict(distinct_nontrivial=named + raw, named_field_paths=named, raw_descriptor_shapes=raw, placements=list(PLACES),
                    rule='(at PDU byte offsets 0, 4, 1 and 2 from a 16-byte boundary) every spec field x {generic, dedicated} path x prior buffers {zero, ones, checkerboards, random} x 14 value '
@@ -149,9 +168,12 @@ def c03(tier, seed):
     work = vlib.Work('C03')
     try:
         obs = vlib.Obs()
-        variants = ['asan', 'gcc-O0', 'gcc-O2', 'clang-O2'] + (['gcc-O3', 'clang-O0', 'clang-O3'] if tier == 'thorough' else [])
+        variants = ['asan', 'gcc-O0', 'gcc-O2', 'clang-O2', 'unsigned-char', 'ndebug', 'short-enums'] + (['gcc-O3', 'clang-O0', 'clang-O3', 'strict-c99', 'no-byteorder-macros'] if tier == 'thorough' else [])
         bins = vlib.run_parallel(lambda v: (v, build_fieldmon(work, v)), variants, workers=4)
         for v, b in bins:
+            if b is None:
+                obs.notes.append('variant %s skipped (could not be built)' % v)
+                continue
             jobs = [dict(VP_MODE='extent', VP_FORMATS=f, VP_EXTENT='heap' if v == 'asan' else 'guard') for f in format_ids()]
             run_modes(obs, b, jobs, seed, tag='extent-' + v)
         filt(obs, ['extent:'])
@@ -179,7 +201,7 @@ def c04(tier, seed):
         # first-call effects: processes whose first library call is the legacy initialiser, with rotated argument order
         lf = [f['id'] for f in S.load()['formats'] if f['legacy'] and f['legacy']['init']]
         run_modes(obs, b, [dict(VP_MODE='init', VP_FORMATS=f, VP_REPS=8, VP_LEGACYFIRST=1, VP_FIRSTARG=a) for f in lf for a in (255, 128, 1, 2, 254)], seed)
-        vlib.run_variant(obs, build_fieldmon(work, 'ilp32'), [dict(VP_MODE='init', VP_FORMATS='all', VP_REPS=reps(tier, 200, 20000), VP_SAMPLES=0, VP_PLACE=pl) for pl in (0, 1)], seed, 'ilp32')
+        config_variants(obs, work, [dict(VP_MODE='init', VP_FORMATS='all', VP_REPS=reps(tier, 200, 20000), VP_PLACE=pl) for pl in (0, 1)], seed, ('ilp32', 'ndebug', 'unsigned-char', 'no-byteorder-macros', 'msan', 'short-enums'))
         filt(obs, ['init:'])
         cov = dict(distinct_nontrivial=int(obs.stats.get('nontrivial', 0)), placements=list(PLACES),
                    rule='20 current + 4 legacy initialisers (avtp_cvf_pdu_init for all 256 format_subtype values) x prior contents '
@@ -205,7 +227,7 @@ def c05(tier, seed):
         run_modes(obs, b, dj, seed)
         for v in ('gcc-O2', 'clang-O2') + (('gcc-O3', 'clang-O1', 'gcc-O0') if tier == 'thorough' else ()):
             run_modes(obs, build_fieldmon(work, v), dj, seed, tag='direct-' + v)
-        vlib.run_variant(obs, build_fieldmon(work, 'ilp32'), [dict(VP_MODE='history', VP_FORMATS='all', VP_EPISODES=reps(tier, 100, 5000), VP_SAMPLES=0)] + dj[:1], seed, 'ilp32')
+        config_variants(obs, work, [dict(VP_MODE='history', VP_FORMATS='all', VP_EPISODES=reps(tier, 100, 5000))] + dj[:1], seed, ('ilp32', 'ndebug', 'unsigned-char', 'msan'))
         filt(obs, ['history:', 'direct:'])
         cov = dict(distinct_nontrivial=int(obs.stats.get('history.distinct_histories', 0)),
                    episodes=int(obs.stats.get('history.episodes', 0)), history_ops=int(obs.stats.get('history.ops', 0)),
@@ -231,6 +253,7 @@ def c11(tier, seed):
         seeds = range(reps(tier, 4, 600))
         jobs = [dict(VP_MODE='badargs', VP_FORMATS=f, VP_SEED=int(seed) * 1000 + s, VP_PLACE=PLACES[s % len(PLACES)]) for f in format_ids() for s in seeds]
         run_modes(obs, b, jobs, seed)
+        config_variants(obs, work, [dict(VP_MODE='badargs', VP_FORMATS='all', VP_SEED=int(seed) * 1000 + 999, VP_PLACE=pl) for pl in (0, 1)], seed, ('ilp32', 'ndebug', 'unsigned-char', 'msan'))   # not short-enums: identifiers >= 256 are not representable in the parameter type there
         filt(obs, ['badargs:'])
         cov = dict(distinct_nontrivial=int(obs.stats.get('nontrivial', 0)) // len(seeds), repetitions_with_other_buffers=len(seeds),
                    rule='per format: generic get/set with identifiers {MAX, MAX+1, 127, 128, 255, 256+k, 512+k, 65536+k for every '
@@ -257,6 +280,7 @@ def c12(tier, seed):
         dj = [dict(VP_MODE='direct', VP_FORMATS=f, VP_REPS=reps(tier, 400, 40000)) for f in fm]
         run_modes(obs, b, dj, seed)
         run_modes(obs, build_fieldmon(work, 'gcc-O2'), dj, seed, tag='direct-gcc-O2')
+        config_variants(obs, work, [dict(VP_MODE='legacy', VP_FORMATS='all', VP_REPS=reps(tier, 200, 20000), VP_PLACE=pl) for pl in (0, 1)], seed, ('ilp32', 'ndebug', 'unsigned-char', 'msan', 'short-enums'))
         filt(obs, ['legacy:', 'direct:'])
         cov = dict(distinct_nontrivial=int(obs.stats.get('nontrivial', 0)) // len(PLACES), legacy_formats=fm, placements=list(PLACES),
                    rule='5 legacy formats x every field identifier and every legacy alias macro: legacy get vs current GetField on '
@@ -279,17 +303,30 @@ def c17(tier, seed):
         sp = S.load()
         hubs = sorted(set(a for a, _, _, _ in sp['shares']))
         run_modes(obs, b, [dict(VP_MODE='views', VP_FORMATS=f, VP_REPS=R if pl == 0 else max(20, R // 8), VP_PLACE=pl) for f in hubs for pl in PLACES], seed)
-        filt(obs, ['views:'])
-        cov = dict(distinct_nontrivial=int(obs.stats.get('nontrivial', 0)) // len(PLACES), share_pairs=len(sp['shares']), placements=list(PLACES),
+        nt_views = int(obs.stats.get('nontrivial', 0))
+        # the shared views called directly and repeatedly inside one function in optimised builds (declaration-level slips on the
+        # common-header / ACF-common getters show only there)
+        dj = [dict(VP_MODE='direct', VP_FORMATS=f, VP_REPS=reps(tier, 400, 40000), VP_PLACE=pl) for f in hubs for pl in (0, 1)]
+        run_modes(obs, b, dj, seed)
+        for v in ('gcc-O2', 'clang-O2'):
+            run_modes(obs, build_fieldmon(work, v), dj, seed, tag='direct-' + v)
+        config_variants(obs, work, [dict(VP_MODE='views', VP_FORMATS='all', VP_REPS=reps(tier, 100, 10000), VP_PLACE=pl) for pl in (0, 1)], seed, ('ilp32', 'ndebug', 'unsigned-char', 'msan'))
+        filt(obs, ['views:', 'direct:'])
+        cov = dict(distinct_nontrivial=nt_views // len(PLACES), share_pairs=len(sp['shares']), placements=list(PLACES),
                    rule='%d (format.field = format.field) pairs of the sharing relation in spec/wire.spec (common header x 7 stream '
                         'formats, ACF common x 10 ACF messages, stream fields across TSCF/AAF/PCM/CVF/RVF) x {generic,dedicated}^2 '
                         'paths x (6 fixed + %d random) buffers: read via A == read via B, write via A == write via B byte for byte, '
-                        'write via A then read via B returns the value.' % (len(sp['shares']), R))
+                        'write via A then read via B returns the value; values include ones derived from the current contents (equal halves, same low '
+                        'bytes, neighbours); accessors of the hub formats also as direct-call sequences in optimised gcc/clang builds.' % (len(sp['shares']), R))
         return vlib.finish('C17', 'exploration', tier, seed, obs, cov, ASSUME_COMMON, t0, min_evals=10000)
     finally:
         work.cleanup()
 
 
-BUILDERS = {'fieldmon_asan': lambda work: build_fieldmon(work, 'asan'), 'fieldmon_gcc_O0': lambda work: build_fieldmon(work, 'gcc-O0'),
-            'fieldmon_gcc_O2': lambda work: build_fieldmon(work, 'gcc-O2'), 'fieldmon_clang_O2': lambda work: build_fieldmon(work, 'clang-O2')}
+BUILDERS = {'fieldmon_asan': lambda work: build_fieldmon(work, 'asan'), 'fieldmon_strict_c99': lambda work: build_fieldmon(work, 'strict-c99'),
+            'fieldmon_short_enums': lambda work: build_fieldmon(work, 'short-enums'), 'fieldmon_ilp32': lambda work: build_fieldmon(work, 'ilp32'),
+            'fieldmon_ndebug': lambda work: build_fieldmon(work, 'ndebug'), 'fieldmon_no_byteorder_macros': lambda work: build_fieldmon(work, 'no-byteorder-macros'), 'fieldmon_unsigned_char': lambda work: build_fieldmon(work, 'unsigned-char'), 'fieldmon_msan': lambda work: build_fieldmon(work, 'msan')}
+for _cc in ('gcc', 'clang'):
+    for _o in ('O0', 'O1', 'O2', 'O3'):
+        BUILDERS['fieldmon_%s_%s' % (_cc, _o)] = (lambda v: (lambda work: build_fieldmon(work, v)))('%s-%s' % (_cc, _o))
 CHECKS = dict(C01=c01, C02=c02, C03=c03, C04=c04, C05=c05, C11=c11, C12=c12, C17=c17)
